@@ -262,8 +262,10 @@ static int sched_llp_schedule(parsec_execution_stream_t* es,
 
     lifo_chain_sorted(&es_sched_obj->lifo, &new_context->super, distance,
                       parsec_execution_context_priority_comparator,
-                      /* the comm thread might write into thread 0' s queue */
-                      (es->th_id != 0));
+                      /* the comm thread might write into thread 0' s queue, and
+                       * __parsec_reschedule writes into another stream's queue: only
+                       * the owner of a queue other than 0 is its single writer */
+                      (es->th_id != 0) && (parsec_my_execution_stream() == es));
 
     return PARSEC_SUCCESS;
 }
